@@ -33,7 +33,16 @@ func init() {
 	}, Run: runS00})
 }
 
+var raceProbe int
+
 func runS00(r *h.Run) {
+	if r.Spec.P("raceprobe", "") == "1" {
+		// deliberate unsynchronised access: proves the race worker reports races
+		done := make(chan bool)
+		go func() { raceProbe++; done <- true }()
+		raceProbe++ // RACE_SELFTEST
+		<-done
+	}
 	c := r.ConfFromParams()
 	c.Translate = r.Spec.P("xlate", "0") == "1"
 	r.InstallPlugin(&c)
